@@ -2,8 +2,8 @@ import AioslskVerif.Model.XferTasks
 /-!
 Line protocol for K_C06 (one op per line, same `step` the theorems are about).
 
-  reset | addDownload | addUpload | cycle <k>* | preq <k> | tstart <t> | tend <t> <ok|fail|toQueue|transferring|complete|cancelled>
-  tcb <t> | call <k> <abort|pause|remove> | resume <k> | requeue <k>
+  reset | addDownload | addUpload | cycle <k>* | preq <k> | tstart <t> | tend <t> <ok|fail|toQueue|transferring|complete|incomplete|cancelled>
+  tcb <t> | call <k> <abort|pause|remove> | resume <k> | requeue <k> | peerfail <k>
 
 Answer: `nt=<tasks created> missed=<downloads a cycle would still spawn for|-> | <k>:<STATE>:rq<0|1>:a<attempts>:Q<N|L|D>:T<N|L|D>:
 <-|A|P|R locked>:<removed 0|1>:q<quiet 0|1>:live<n> ...`   (slot: N empty, L holds a live task, D holds a finished one)
@@ -37,7 +37,7 @@ def render (s : TS) : String :=
 
 def parseOutcome : String → Option Outcome
   | "ok" => some .ok | "fail" => some .fail | "cancelled" => some .fail | "toQueue" => some .toQueue
-  | "transferring" => some .transferring | "complete" => some .complete | _ => none
+  | "transferring" => some .transferring | "complete" => some .complete | "incomplete" => some .incomplete | _ => none
 
 def parseCall : String → Option CallKind
   | "abort" => some .abort | "pause" => some .pause | "remove" => some .remove | _ => none
@@ -53,6 +53,7 @@ def parseOp : List String → Option Op
   | ["call", k, c] => do pure (.call (← k.toNat?) (← parseCall c))
   | ["resume", k] => k.toNat?.map .callResume
   | ["requeue", k] => k.toNat?.map .requeue
+  | ["peerfail", k] => k.toNat?.map .peerFail
   | _ => none
 
 def handle (s : TS) (line : String) : TS × String :=
